@@ -1323,10 +1323,36 @@ func ruleER1() Rule {
 					return false
 				}
 				stored := core.NewFlow(f).MustSeen(false, isStore, nil)
+				// a test of the function's own error parameter against nil says nothing about
+				// the slot: `if err == nil { return }` has nothing to record
+				paramNil := func(g guard) (isCmp, paramIsNil bool) {
+					be, ok := ast.Unparen(g.cond).(*ast.BinaryExpr)
+					if !ok || !isNilIdent(info, be.Y) || (be.Op != token.EQL && be.Op != token.NEQ) {
+						return false, false
+					}
+					id, ok := ast.Unparen(be.X).(*ast.Ident)
+					if !ok {
+						return false, false
+					}
+					v, ok := info.Uses[id].(*types.Var)
+					if !ok || !isParamOf(f, v) || !isErrorType(v.Type()) {
+						return false, false
+					}
+					return true, (be.Op == token.EQL) == g.pos
+				}
 				f.OwnNodes(func(x ast.Node) bool {
 					switch x := x.(type) {
 					case *ast.ReturnStmt:
 						if stored[x] {
+							return true
+						}
+						nothing := false
+						for _, g := range guardsOf(c.P, x, nil) {
+							if isCmp, isNil := paramNil(g); isCmp && isNil {
+								nothing = true
+							}
+						}
+						if nothing {
 							return true
 						}
 						n++
@@ -1370,7 +1396,12 @@ func ruleER1() Rule {
 						if !ok || !isStore(as) {
 							return true
 						}
-						gs := guardsOf(c.P, as, nil)
+						var gs []guard
+						for _, g := range guardsOf(c.P, as, nil) {
+							if isCmp, _ := paramNil(g); !isCmp {
+								gs = append(gs, g)
+							}
+						}
 						if len(gs) == 0 {
 							okEmpty = true
 						}
